@@ -102,14 +102,39 @@ def to_line(c):
     raise ValueError(k)
 
 
+FHFORMS = ["list", "array", "int", "fhobj", "index"]
+
+
 def _fh_arg(c):
+    """the horizon in the container form the case asks for (the forms check_fh documents)"""
     fh = c["fh"]
     form = c.get("fhform", "list")
     if form == "int" and len(fh) == 1:
         return int(fh[0])
     if form == "array":
         return np.array(fh, dtype="int64")
+    if form == "index":
+        return pd.Index(np.array(fh, dtype="int64"))
+    if form == "fhobj":
+        from sktime.forecasting.base import ForecastingHorizon
+        try:
+            return ForecastingHorizon(list(fh), is_relative=True)
+        except Exception:
+            return list(fh)          # malformed horizons: let the splitter see (and reject) the raw values
     return list(fh)
+
+
+def _fh_snapshot(a):
+    try:
+        if hasattr(a, "to_numpy"):
+            return [int(v) for v in a.to_numpy()], getattr(a, "is_relative", None)
+        if isinstance(a, np.ndarray):
+            return [int(v) for v in a], None
+        if isinstance(a, list):
+            return list(a), None
+        return a, None
+    except Exception:
+        return "unreadable", None
 
 
 def run_real(c):
@@ -132,10 +157,25 @@ def run_real(c):
         else:
             cv = CutoffSplitter(np.array(c["cutoffs"], dtype="int64"), fh=_fh_arg(c), window_length=c["wl"])
         arg = y if c.get("pass", "series") == "series" else y.index
-        sp = _try(lambda: [(list(tr), list(te)) for tr, te in cv.split(arg)], _folds_str)
-        cu = _try(lambda: list(cv.get_cutoffs(arg)), show_ints)
-        ns = _try(lambda: cv.get_n_splits(arg), lambda v: str(int(v)))
-        return "split=%s cut=%s ns=%s" % (sp, cu, ns)
+        fh_arg, y0 = cv.fh, y.copy()
+        snap = _fh_snapshot(fh_arg)
+        calls = {"s": lambda: _try(lambda: [(list(tr), list(te)) for tr, te in cv.split(arg)], _folds_str),
+                 "c": lambda: _try(lambda: list(cv.get_cutoffs(arg)), show_ints),
+                 "n": lambda: _try(lambda: cv.get_n_splits(arg), lambda v: str(int(v)))}
+        order = c.get("calls", "scn")
+        first = {}
+        for ch in order:                      # every query once, in the case's order ...
+            first[ch] = calls[ch]()
+        rep = ""
+        for ch in order[::-1]:                # ... and once more: a splitter is a description, not a cursor
+            again = calls[ch]()
+            if again != first[ch] and not rep:
+                rep = "REPEAT:%s:%s->%s" % (ch, first[ch][:60], again[:60])
+        if _fh_snapshot(fh_arg) != snap and not rep:
+            rep = "FHARG:%s->%s" % (snap[0], _fh_snapshot(fh_arg)[0])
+        if not (y.equals(y0) and y.index.equals(y0.index)) and not rep:
+            rep = "DATA"
+        return "split=%s cut=%s ns=%s%s" % (first["s"], first["c"], first["n"], (" rep=" + rep.replace(" ", "")) if rep else "")
     X = None
     if c.get("withX"):
         X = pd.DataFrame({"a": np.arange(n) * 2.0, "b": np.arange(n) * -1.0}, index=y.index)
@@ -143,13 +183,18 @@ def run_real(c):
     def pos(s):
         return [int(v) for v in y.index.get_indexer(s.index)]
 
+    y0, X0 = y.copy(), (None if X is None else X.copy())
+
     def run():
         if k == "ttsfh":
             if c["rel"]:
                 fh = _fh_arg(c)
             else:
                 fh = ForecastingHorizon(np.array(c["fh"], dtype="int64") + origin, is_relative=False)
+            snap = _fh_snapshot(fh)
             out = temporal_train_test_split(y, X, fh=fh)
+            if _fh_snapshot(fh) != snap:
+                return "tts=ARGCHANGED"
         else:
             def sz(s):
                 if s is None:
@@ -170,9 +215,11 @@ def run_real(c):
                 return "tts=XMISALIGNED"
             if k == "ttssize" and list(Xte.index) != list(yte.index):
                 return "tts=XMISALIGNED"
-        # values must be the original observations at those labels
+        # values must be the original observations at those labels, and the caller's data untouched
+        if not y.equals(y0) or (X is not None and not X.equals(X0)):
+            return "tts=ARGCHANGED"
         for part in (ytr, yte):
-            if not np.array_equal(part.to_numpy(), y.loc[part.index].to_numpy()):
+            if not np.array_equal(part.to_numpy(), y0.loc[part.index].to_numpy()):
                 return "tts=VALUESCHANGED"
         return "tts=%s|%s" % (show_ints(pos(ytr)), show_ints(pos(yte)))
     try:
@@ -216,6 +263,10 @@ def oracle(c, out):
         fh = sorted(c["fh"])
         if not _valid_fh(fh):
             return fails  # property quantifies over out-of-sample duplicate-free horizons
+        if "rep" in d:
+            kind = d["rep"].split(":")[0]
+            key = {"REPEAT": ":second-query-differs", "FHARG": ":caller-horizon-modified", "DATA": ":caller-data-modified"}[kind]
+            fails.append((site + key, d["rep"]))
         folds = _parse_folds(d["split"])
         fhmax = fh[-1]
         # ---- which configurations are valid choices (must be accepted)
@@ -309,7 +360,7 @@ def oracle(c, out):
     # ---- temporal_train_test_split
     site = "temporal_train_test_split"
     v = d["tts"]
-    if v in ("XMISALIGNED", "VALUESCHANGED"):
+    if v in ("XMISALIGNED", "VALUESCHANGED", "ARGCHANGED"):
         return [(site + ":" + v.lower(), v)]
     if k == "ttsfh":
         fh = sorted(c["fh"])
@@ -387,6 +438,7 @@ def features(c, out):
     return f
 
 
+CALLS = ["scn", "scn", "csn", "ncs", "snc", "cns"]       # order of split / get_cutoffs / get_n_splits on one splitter object
 FHS = [list(s) for r in range(1, 5) for s in itertools.combinations([1, 2, 3, 4], r)] + [[2, 5], [7]]
 
 
@@ -409,14 +461,16 @@ def gen_cases(tier, rng):
                                     continue
                                 cases.append({"kind": "win", "k": kk, "n": n, "fh": fh, "wl": wl, "step": step, "iw": iw,
                                               "sww": sww, "origin": rng.choice([0, 0, 5, -3, 1000]),
-                                              "fhform": rng.choice(["list", "array", "int"]), "pass": rng.choice(["series", "index"])})
+                                              "fhform": rng.choice(FHFORMS), "pass": rng.choice(["series", "index"]),
+                                              "calls": rng.choice(CALLS)})
     for n in range(1, 15):
         for fh in FHS:
             for wl in [None] + list(range(1, 9)):
                 cnt += 1
                 if quick and cnt % 4 != rot % 4:
                     continue
-                cases.append({"kind": "single", "n": n, "fh": fh, "wl": wl, "origin": rng.choice([0, 7]), "fhform": "list"})
+                cases.append({"kind": "single", "n": n, "fh": fh, "wl": wl, "origin": rng.choice([0, 7]), "fhform": rng.choice(FHFORMS),
+                               "calls": rng.choice(CALLS)})
     # cutoff sets: subsets of {0..n-1} of size <= 3
     for n in range(1, 11):
         for r in (1, 2, 3):
@@ -427,11 +481,13 @@ def gen_cases(tier, rng):
                         continue
                     cs2 = list(cs)
                     rng.shuffle(cs2)
-                    cases.append({"kind": "cutoff", "n": n, "cutoffs": cs2, "fh": fh, "wl": rng.randrange(1, 6), "origin": rng.choice([0, 3])})
+                    cases.append({"kind": "cutoff", "n": n, "cutoffs": cs2, "fh": fh, "wl": rng.randrange(1, 6), "origin": rng.choice([0, 3]),
+                                  "fhform": rng.choice(FHFORMS), "calls": rng.choice(CALLS)})
     # tts exhaustive small
     for n in range(1, 13):
         for fh in FHS:
-            cases.append({"kind": "ttsfh", "n": n, "fh": fh, "rel": True, "origin": rng.choice([0, 4, -2]), "withX": rng.random() < 0.3})
+            cases.append({"kind": "ttsfh", "n": n, "fh": fh, "rel": True, "origin": rng.choice([0, 4, -2]), "withX": rng.random() < 0.3,
+                          "fhform": rng.choice(FHFORMS)})
             if not quick or rng.random() < 0.3:
                 cases.append({"kind": "ttsfh", "n": n, "fh": [h + rng.randrange(0, max(1, n - 3)) for h in fh], "rel": False,
                               "origin": rng.choice([0, 4, -2]), "withX": rng.random() < 0.3})
@@ -455,15 +511,16 @@ def gen_cases(tier, rng):
         kind = rng.random()
         if kind < 0.6:
             cases.append({"kind": "win", "k": kk, "n": n, "fh": fh, "wl": wl, "step": step, "iw": iw,
-                          "sww": rng.random() < 0.75, "origin": rng.choice([0, 11, -40]), "fhform": rng.choice(["list", "array"]),
-                          "pass": rng.choice(["series", "index"])})
+                          "sww": rng.random() < 0.75, "origin": rng.choice([0, 11, -40]), "fhform": rng.choice(FHFORMS),
+                          "pass": rng.choice(["series", "index"]), "calls": rng.choice(CALLS)})
         elif kind < 0.7:
-            cases.append({"kind": "single", "n": n, "fh": fh, "wl": rng.choice([None, wl]), "origin": 0, "fhform": "list"})
+            cases.append({"kind": "single", "n": n, "fh": fh, "wl": rng.choice([None, wl]), "origin": 0, "fhform": rng.choice(FHFORMS), "calls": rng.choice(CALLS)})
         elif kind < 0.8:
             cs = rng.sample(range(n), min(n, rng.randrange(1, 6)))
-            cases.append({"kind": "cutoff", "n": n, "cutoffs": cs, "fh": fh, "wl": wl, "origin": 0})
+            cases.append({"kind": "cutoff", "n": n, "cutoffs": cs, "fh": fh, "wl": wl, "origin": 0, "fhform": rng.choice(FHFORMS), "calls": rng.choice(CALLS)})
         elif kind < 0.9:
-            cases.append({"kind": "ttsfh", "n": n, "fh": fh, "rel": rng.random() < 0.6, "origin": rng.choice([0, 50]), "withX": rng.random() < 0.3})
+            cases.append({"kind": "ttsfh", "n": n, "fh": fh, "rel": rng.random() < 0.6, "origin": rng.choice([0, 50]), "withX": rng.random() < 0.3,
+                          "fhform": rng.choice(FHFORMS)})
         else:
             def rs():
                 r = rng.random()
